@@ -110,7 +110,8 @@ type op struct {
 	SP  uint64 `json:",omitempty"`
 	Exp int64  `json:",omitempty"` // seed: absolute expiry; ExpRel != 0: relative to the wall clock at execution
 	Rel int64  `json:",omitempty"`
-	D    []string `json:",omitempty"` // svcil: services deleted through REST while the request's own save is parked
+	X    *xenv    `json:",omitempty"` // svcx: what happens to the storage operations of the first LoadMin
+	D    []string `json:",omitempty"` // svcil / svcx: services deleted through REST while the request's own save is parked
 	Wait int   `json:",omitempty"` // milliseconds of real time to let pass before the op (thorough tier: real expiry)
 	Now int64  `json:",omitempty"` // filled in by the run
 	Lo  int64  `json:",omitempty"`
@@ -138,12 +139,47 @@ func (o op) coq() string {
 		}
 		return fmt.Sprintf("OSvcIl %s %s %s %s %s %s %s %s", sidCoq(o.ID), coqfmt.Z(o.TTL), coqfmt.ZU(o.SP), coqfmt.Z(o.Now), coqfmt.Z(o.Lo), coqfmt.Z(o.Hi),
 			coqfmt.List(ks), []string{"Ok", "ErrNotApplied", "ErrApplied"}[o.Out])
+	case "svcx":
+		return fmt.Sprintf("OSvcX %s %s %s %s %s %s %s %s %s", sidCoq(o.ID), coqfmt.Z(o.TTL), coqfmt.ZU(o.SP), coqfmt.Z(o.Now), coqfmt.Z(o.Lo), coqfmt.Z(o.Hi),
+			o.X.coq(), keysCoq(o.D), outNames[o.Out])
 	case "apidel":
 		return "OApiDel " + sidCoq(o.ID)
 	case "seed":
 		return fmt.Sprintf("OSeed %s %s %s", sidCoq(o.ID), coqfmt.Z(o.Exp), coqfmt.ZU(o.SP))
 	}
 	panic("bad op " + o.K)
+}
+
+// xenv: storage outcomes (0 Ok, 1 ErrNotApplied, 2 ErrApplied) and REST deletes at single storage operations of LoadMin
+type xstep struct {
+	Key  string   // the service whose entry the loop is looking at (its Remove, or gc_worker's repair save)
+	Dels []string `json:",omitempty"` // REST deletes that have run just before
+	Rep  int      `json:",omitempty"` // outcome of the repair save (Key == "gc_worker")
+	Rem  int      `json:",omitempty"` // outcome of the Remove of the expired entry
+}
+type xenv struct {
+	LR    int     `json:",omitempty"` // outcome of the LoadRange
+	Init  int     `json:",omitempty"` // outcome of the (re)creation of gc_worker's entry
+	Steps []xstep `json:",omitempty"`
+}
+
+var outNames = []string{"Ok", "ErrNotApplied", "ErrApplied"}
+
+func keysCoq(ids []string) string {
+	ks := make([]string, len(ids))
+	for i, d := range ids {
+		ks[i] = coqfmt.Z(keyNum[d])
+	}
+	return coqfmt.List(ks)
+}
+
+func (x *xenv) coq() string {
+	f := "quiet_step"
+	for i := len(x.Steps) - 1; i >= 0; i-- {
+		st := x.Steps[i]
+		f = fmt.Sprintf("if (k =? %s)%%Z then LmStep %s %s %s else %s", coqfmt.Z(keyNum[st.Key]), keysCoq(st.Dels), outNames[st.Rep], outNames[st.Rem], f)
+	}
+	return fmt.Sprintf("(LmEnv %s (fun k => %s) %s)", outNames[x.LR], f, outNames[x.Init])
 }
 
 type result struct {
@@ -213,8 +249,17 @@ func (w *world) start(t int, v uint64, park bool) {
 	}()
 }
 
+var leaderLost bool // set when a handler answered "not leader": the 1 s lease was lost under machine load
+
+func noteErr(err error) {
+	if err != nil && (strings.Contains(err.Error(), "not leader") || strings.Contains(err.Error(), "not started")) {
+		leaderLost = true
+	}
+}
+
 func respObs(r result) string {
 	if r.err != nil {
+		noteErr(r.err)
 		return "BErr"
 	}
 	return "BResp " + coqfmt.ZU(r.v)
@@ -366,6 +411,7 @@ func (w *world) exec(o *op) string {
 		panic("wake is recorded by wakeBlocked, never executed")
 	case "get":
 		r, err := w.x.S.GetGCSafePoint(w.ctx, &pdpb.GetGCSafePointRequest{Header: w.x.Header()})
+		noteErr(err)
 		if err != nil || r.GetHeader().GetError() != nil {
 			return "BErr"
 		}
@@ -386,6 +432,7 @@ func (w *world) exec(o *op) string {
 		o.Hi = time.Now().Unix()
 		t1 := w.tsoNow()
 		o.Now = t0.Unix()
+		noteErr(err)
 		if err != nil || r.GetHeader().GetError() != nil {
 			if t0.Unix() != t1.Unix() {
 				w.ambiguous = true
@@ -450,6 +497,7 @@ func (w *world) exec(o *op) string {
 		o.Hi = time.Now().Unix()
 		t1 := w.tsoNow()
 		o.Now = t0.Unix()
+		noteErr(res.err)
 		if res.err != nil || res.r.GetHeader().GetError() != nil {
 			if t0.Unix() != t1.Unix() {
 				w.ambiguous = true
@@ -467,6 +515,75 @@ func (w *world) exec(o *op) string {
 			o.Now = find(pre, mid).ExpiredAt - res.r.GetTTL()
 		}
 		return fmt.Sprintf("BMin %s %s %s", textOf(mid), coqfmt.Z(res.r.GetTTL()), coqfmt.ZU(res.r.GetMinSafePoint()))
+	case "svcx":
+		// scripted storage: each step fires at one storage operation of the call (kvx15.Script); REST deletes run on
+		// the handler's own goroutine right before that operation
+		pre := w.all()
+		modes := []kvx15.Mode{kvx15.Pass, kvx15.FailBefore, kvx15.FailAfter}
+		rest := func(ids []string) func() {
+			return func() {
+				for _, d := range ids {
+					rec := httptest.NewRecorder()
+					w.api.ServeHTTP(rec, httptest.NewRequest(http.MethodDelete, "/pd/api/v1/gc/safepoint/"+d, nil))
+				}
+			}
+		}
+		gcwKey := svcPrefix + "gc_worker"
+		gcwFinite := false
+		if g := find(pre, "gc_worker"); g != nil && g.ExpiredAt != math.MaxInt64 {
+			gcwFinite = true
+		}
+		var script []*kvx15.Step
+		script = append(script, &kvx15.Step{Match: func(x kvx15.Op) bool { return x.Kind == kvx15.LoadRange }, Mode: modes[o.X.LR]})
+		for _, st := range o.X.Steps {
+			st := st
+			if st.Key == "gc_worker" {
+				script = append(script, &kvx15.Step{Match: func(x kvx15.Op) bool { return x.Kind == kvx15.Save && x.Key == gcwKey },
+					Before: rest(st.Dels), Mode: modes[st.Rep]})
+			} else {
+				script = append(script, &kvx15.Step{Match: func(x kvx15.Op) bool { return x.Kind == kvx15.Remove && x.Key == svcPrefix+st.Key },
+					Before: rest(st.Dels), Mode: modes[st.Rem]})
+			}
+		}
+		_ = gcwFinite
+		// the (re)creation of gc_worker's entry is the Save on its key that is not the repair (the repair step, if any, is consumed first)
+		script = append(script, &kvx15.Step{Match: func(x kvx15.Op) bool { return x.Kind == kvx15.Save && x.Key == gcwKey }, Mode: modes[o.X.Init]})
+		own := svcPrefix + o.ID
+		script = append(script, &kvx15.Step{Match: func(x kvx15.Op) bool { return x.Kind == kvx15.Save && x.Key == own }, Before: rest(o.D), Mode: modes[o.Out]})
+		t0 := w.tsoNow()
+		for t0.Nanosecond() > 900*int(time.Millisecond) {
+			time.Sleep(10 * time.Millisecond)
+			t0 = w.tsoNow()
+		}
+		o.Lo = time.Now().Unix()
+		w.b.Bind("svcx")
+		w.b.Script("svcx", script)
+		r, err := w.x.S.UpdateServiceGCSafePoint(w.ctx, &pdpb.UpdateServiceGCSafePointRequest{Header: w.x.Header(),
+			ServiceId: []byte(o.ID), TTL: o.TTL, SafePoint: o.SP})
+		w.R.CountN("svcx:steps-fired", w.b.Fired("svcx"))
+		w.b.Script("svcx", nil)
+		w.b.Unbind()
+		o.Hi = time.Now().Unix()
+		t1 := w.tsoNow()
+		o.Now = t0.Unix()
+		noteErr(err)
+		if err != nil || r.GetHeader().GetError() != nil {
+			if t0.Unix() != t1.Unix() {
+				w.ambiguous = true
+			}
+			return "BErr"
+		}
+		post := w.all()
+		mid := string(r.GetServiceId())
+		switch {
+		case mid == "gc_worker":
+			o.Now = math.MaxInt64 - r.GetTTL()
+		case find(post, mid) != nil:
+			o.Now = find(post, mid).ExpiredAt - r.GetTTL()
+		case find(pre, mid) != nil:
+			o.Now = find(pre, mid).ExpiredAt - r.GetTTL()
+		}
+		return fmt.Sprintf("BMin %s %s %s", textOf(mid), coqfmt.Z(r.GetTTL()), coqfmt.ZU(r.GetMinSafePoint()))
 	case "apidel":
 		// DELETE /pd/api/v1/gc/safepoint/{service_id} through the real router and handler
 		rec := httptest.NewRecorder()
@@ -638,6 +755,76 @@ func (w *world) svcRace() {
 		[]string{"svc gc_worker inf 40", "begin svc a1 1000 45 (parked at save)", "svc gc_worker inf 60", "release a1"})
 }
 
+// malformedProbe: an unparsable value below the service prefix (outside the model: the model's entries are parsed ones).
+// What the real code guarantees then, checked here: UpdateServiceGCSafePoint fails (LoadMin cannot parse) and keeps failing -
+// a liveness problem only: no safe point moves back, gc_worker's entry stays, the cluster safe point is independent; a TTL<=0
+// request still removes its own entry (the removal precedes LoadMin); the REST delete of the bad key repairs it.
+func (w *world) malformedProbe() {
+	w.reset()
+	inf := int64(math.MaxInt64)
+	call := func(id string, ttl int64, sp uint64) error {
+		r, err := w.x.S.UpdateServiceGCSafePoint(w.ctx, &pdpb.UpdateServiceGCSafePointRequest{Header: w.x.Header(), ServiceId: []byte(id), TTL: ttl, SafePoint: sp})
+		if err == nil && r.GetHeader().GetError() != nil {
+			err = fmt.Errorf("%v", r.GetHeader().GetError())
+		}
+		return err
+	}
+	bad := func(what string) { w.R.Violate("C15:malformed-entry:"+what, "with an unparsable value under gc/safe_point/service/b2: "+what, nil) }
+	upd := func(v uint64) uint64 {
+		r, err := w.x.S.UpdateGCSafePoint(w.ctx, &pdpb.UpdateGCSafePointRequest{Header: w.x.Header(), SafePoint: v})
+		if err != nil {
+			bad("UpdateGCSafePoint failed: " + err.Error())
+		}
+		return r.GetNewSafePoint()
+	}
+	upd(30)
+	if call("gc_worker", inf, 10) != nil || call("a1", 1000, 20) != nil {
+		w.R.Count("malformed-probe:set-up-refused")
+		return
+	}
+	if err := w.b.Inner().Save(svcPrefix+"b2", "{{not json"); err != nil {
+		panic(err)
+	}
+	snapshot := func() string {
+		ks, vs, err := w.b.Inner().LoadRange("gc/", clientv3.GetPrefixRangeEnd("gc/"), 0)
+		if err != nil {
+			panic(err)
+		}
+		return strings.Join(ks, "|") + " = " + strings.Join(vs, "|")
+	}
+	before := snapshot()
+	if call("h4", 1000, 25) == nil {
+		bad("a registration was answered although LoadMin cannot parse the stored entries")
+	}
+	if call("gc_worker", inf, 5) == nil {
+		bad("gc_worker's update was answered")
+	}
+	if snapshot() != before {
+		bad("a failing registration changed the stored safe points: " + before + " -> " + snapshot())
+	}
+	if upd(40) != 40 || upd(35) != 40 {
+		bad("the cluster GC safe point is not independent of the service entries")
+	}
+	rec := httptest.NewRecorder()
+	w.api.ServeHTTP(rec, httptest.NewRequest(http.MethodGet, "/pd/api/v1/gc/safepoint", nil))
+	if rec.Code != http.StatusInternalServerError {
+		bad(fmt.Sprintf("REST list answered %d", rec.Code))
+	}
+	_ = call("a1", 0, 0) // fails, but its removal precedes LoadMin
+	if strings.Contains(snapshot(), svcPrefix+"a1") {
+		bad("TTL<=0 did not remove the entry")
+	}
+	if !strings.Contains(snapshot(), `"service_id":"gc_worker","expired_at":9223372036854775807,"safe_point":10`) {
+		bad("gc_worker's entry changed: " + snapshot())
+	}
+	rec = httptest.NewRecorder()
+	w.api.ServeHTTP(rec, httptest.NewRequest(http.MethodDelete, "/pd/api/v1/gc/safepoint/b2", nil))
+	if rec.Code != http.StatusOK || call("h4", 1000, 25) != nil {
+		bad("deleting the unparsable entry through REST did not repair the service path")
+	}
+	w.R.Count("malformed-probe:checked")
+}
+
 // describe gives the driver's own one-sentence description of a directed case whose implementation
 // trace shows a violation (the same signatures as the Coq monitor, which is the authority).
 func (w *world) describe(c caseRec) {
@@ -684,6 +871,47 @@ func (w *world) describe(c caseRec) {
 			return
 		}
 	}
+}
+
+// genSvcX: a registration whose first LoadMin meets storage faults and REST deletes at its single storage operations.
+// Steps are attached to the entries that make the loop issue an operation: clearly expired ones (their Remove) and a
+// finite gc_worker entry (its repair save).
+func (w *world) genSvcX(r *rng.R) op {
+	o := op{K: "svcx", ID: cleanIDs[r.Intn(len(cleanIDs))], TTL: int64(1000 + r.Intn(9000)), SP: pickSP(r), X: &xenv{}, Out: r.Pick(70, 15, 15)}
+	if r.Pct(10) {
+		o.TTL = 0
+	}
+	if r.Pct(8) {
+		o.X.LR = 1 + r.Intn(2)
+	}
+	if r.Pct(15) {
+		o.X.Init = 1 + r.Intn(2)
+	}
+	pickDels := func() []string {
+		var ds []string
+		for k := r.Intn(3); k > 0; k-- {
+			d := cleanIDs[r.Intn(len(cleanIDs))]
+			if r.Pct(10) {
+				d = "gc_worker"
+			}
+			ds = append(ds, d)
+		}
+		return ds
+	}
+	now := time.Now().Unix()
+	for _, e := range w.all() {
+		if _, ok := keyNum[e.ServiceID]; !ok || !singleElem(e.ServiceID) {
+			continue // entries stored under a foreign id (raw seeds): no step
+		}
+		switch {
+		case e.ServiceID == "gc_worker" && e.ExpiredAt != math.MaxInt64:
+			o.X.Steps = append(o.X.Steps, xstep{Key: "gc_worker", Dels: pickDels(), Rep: r.Pick(50, 25, 25), Rem: r.Pick(60, 20, 20)})
+		case e.ServiceID != "gc_worker" && e.ExpiredAt < now-500 && r.Pct(75):
+			o.X.Steps = append(o.X.Steps, xstep{Key: e.ServiceID, Dels: pickDels(), Rem: r.Pick(50, 25, 25)})
+		}
+	}
+	o.D = pickDels()
+	return o
 }
 
 // ---------- generators ----------
@@ -798,6 +1026,10 @@ func (w *world) genCase(r *rng.R, kind int, maxOps int, lockedMode bool) caseRec
 			case 0:
 				w.step(&c, genSeed(r, odd))
 			case 1:
+				if r.Pct(14) {
+					w.step(&c, w.genSvcX(r))
+					return true
+				}
 				if r.Pct(22) {
 					// a registration with REST deletes slipping in before its save, and/or a failing save
 					o := op{K: "svcil", ID: cleanIDs[r.Intn(len(cleanIDs))], TTL: int64(1000 + r.Intn(9000)), SP: pickSP(r), Out: r.Pick(60, 20, 20)}
@@ -866,6 +1098,17 @@ func directed() [][]op {
 			{K: "svc", ID: "h4", TTL: 1000, SP: 9}, {K: "svc", ID: "h4", TTL: 1000, SP: 10}, {K: "svc", ID: "gc_worker", TTL: inf, SP: 15},
 			{K: "svc", ID: "h4", TTL: 0, SP: 0}, {K: "svc", ID: "gc_worker", TTL: 0, SP: 0}, {K: "svc", ID: "gc_worker", TTL: 1000, SP: 40}, {K: "apidel", ID: "z5"},
 			{K: "svc", ID: "", TTL: 1000, SP: 40}, {K: "svc", ID: "", TTL: 0, SP: 40}},
+		// storage faults and REST deletes at the single storage operations of LoadMin: failing Removes (ignored by the code),
+		// a failing / half-failing repair of a finite gc_worker entry, a failing LoadRange, a failing re-creation
+		{{K: "seed", ID: "gc_worker", Exp: math.MaxInt64, SP: 10}, {K: "seed", ID: "a1", Rel: -2000, SP: 3}, {K: "seed", ID: "b2", Rel: -1500, SP: 4}, {K: "seed", ID: "z5", Rel: 3000, SP: 20},
+			{K: "svcx", ID: "h4", TTL: 1000, SP: 15, X: &xenv{Steps: []xstep{{Key: "a1", Rem: 1}, {Key: "b2", Dels: []string{"z5", "gc_worker"}, Rem: 2}}}, D: []string{"a1"}},
+			{K: "svcx", ID: "q9", TTL: 1000, SP: 12, X: &xenv{LR: 1}}, {K: "svcx", ID: "q9", TTL: 1000, SP: 12, X: &xenv{Steps: []xstep{{Key: "a1", Rem: 0}}}, Out: 2}, {K: "svc", ID: "q9", TTL: 1000, SP: 11}},
+		{{K: "seed", ID: "gc_worker", Rel: -2000, SP: 10}, {K: "seed", ID: "a1", Rel: 2000, SP: 30},
+			{K: "svcx", ID: "h4", TTL: 1000, SP: 15, X: &xenv{Steps: []xstep{{Key: "gc_worker", Rep: 1}}}},
+			{K: "svcx", ID: "h4", TTL: 1000, SP: 15, X: &xenv{Steps: []xstep{{Key: "gc_worker", Dels: []string{"a1"}, Rep: 2}}}},
+			{K: "svcx", ID: "h4", TTL: 1000, SP: 15, X: &xenv{}}, {K: "apidel", ID: "h4"}},
+		{{K: "seed", ID: "a1", Rel: 2000, SP: math.MaxUint64}, {K: "svcx", ID: "h4", TTL: 1000, SP: 15, X: &xenv{Init: 1}}, {K: "svcx", ID: "h4", TTL: 1000, SP: 15, X: &xenv{Init: 2}},
+			{K: "svcx", ID: "h4", TTL: 1000, SP: 15, X: &xenv{}}},
 		// every live safe point is MaxUint64
 		{{K: "svc", ID: "gc_worker", TTL: inf, SP: math.MaxUint64}, {K: "svc", ID: "a1", TTL: 1000, SP: math.MaxUint64}, {K: "svc", ID: "a1", TTL: 1000, SP: 5}},
 	}
@@ -926,6 +1169,14 @@ func main() {
 
 	var all []caseRec
 	emit := func(c caseRec, origin string) {
+		if leaderLost {
+			leaderLost = false
+			R.Count("case:dropped-leadership-lost")
+			if err := x.WaitLeader(60 * time.Second); err != nil {
+				panic(err)
+			}
+			return
+		}
 		if w.ambiguous {
 			// (never seen so far) a failed service call straddled a second boundary: the case cannot be replayed
 			// by the model with a definite `now`; it is counted, not silently dropped
@@ -959,6 +1210,8 @@ func main() {
 				if len(pend) > 0 {
 					overtaken = true
 				}
+			case "svcx":
+				R.Count(fmt.Sprintf("svcx:steps=%d,loadrange=%d,init=%d,own-save=%d", len(o.X.Steps), o.X.LR, o.X.Init, o.Out))
 			case "svcil":
 				R.Count(fmt.Sprintf("svcil:deletes=%d,outcome=%d", len(o.D), o.Out))
 			case "svc":
@@ -1028,6 +1281,7 @@ func main() {
 	}
 	if *replay == "" {
 		w.svcRace()
+		w.malformedProbe()
 		if *tier == "thorough" {
 			for _, d := range directedThorough() {
 				runFixed(d, "directed-real-expiry")
